@@ -122,7 +122,8 @@ def render(dot, predicate: Predicate, node_nr):
             case IsTruthyPredicate():
                 return add_node("truthy", label="truthy")
             case FnPredicate(predicate_fn):
-                name = predicate_fn.__code__.co_name
+                code = getattr(predicate_fn, "__code__", None)
+                name = code.co_name if code else getattr(predicate_fn, "__name__", repr(predicate_fn))
                 return add_node("fn", label=f"fn: {name}")
             case GePredicate(v):
                 return add_node("ge", label=f"x ≥ {v}")
